@@ -64,6 +64,10 @@ Laws == /\ NoDups(walked)
              /\ walked[i].id \in { c.id : c \in Range(cs) }
              /\ \A k \in 1..Len(cs) : cs[k].loc = walked[i].addr
              /\ NoNamesakes(Table) => Len(cs) = 1
+\* derived tables: merging two overlapping halves of a table with distinct names, or cloning all of its names, gives the table back
+RouteLaws == DistinctNames(Table) =>
+               /\ \A k \in 1..Len(Table.ports) : MergeOfOverlappingHalves(Table, k) = Table
+               /\ CloneTable(Table, Names(Table), FALSE) = Table
 \* addresses to try (without the leading '/')
 Mut(a) == { a } \cup { SubSeq(a, 1, i - 1) \o SubSeq(a, i + 1, Len(a)) : i \in 1..Len(a) }
                 \cup { [a EXCEPT ![i] = c] : i \in 1..Len(a), c \in {B, SL, 50} }
